@@ -34,9 +34,13 @@ def mergeWu : List Out → List Out → List Out
     else mergeWu t (acc ++ [.wu id n])
   | o :: t, acc => mergeWu t (acc ++ [o])
 
+/-- order inside a stream's group: goaway, ping, rst, reply, data (arrival order), wu, read -/
+def Out.rank : Out → Nat
+  | .goaway .. => 0 | .ping _ => 1 | .rst .. => 2 | .reply .. => 3 | .data .. => 4 | .wu .. => 5 | .read .. => 6
+
 def insertById (o : Out) : List Out → List Out
   | [] => [o]
-  | x :: t => if o.id < x.id then o :: x :: t else x :: insertById o t
+  | x :: t => if o.id < x.id ∨ (o.id = x.id ∧ o.rank < x.rank) then o :: x :: t else x :: insertById o t
 
 /-- the bytes read by a handler during the event, summed: last token of the stream's group -/
 def mergeRead (os : List Out) : List Out :=
@@ -95,12 +99,13 @@ structure Mon where
   connIn : Int := 65536
   connOut : Int := 65536
   iws : Int := 65536
+  acted : Nat := 0         -- highest stream id the server has answered on (SYN_REPLY / DATA)
   goaway : Bool := false   -- the server announced its (graceful) shutdown: it ignores new streams, sends no 2nd GOAWAY
   void : Bool := false     -- the script left the protocol's domain (initial window >= 2^31): nothing more is demanded
   deriving Repr
 
 inductive Tok
-  | rst (id c : Nat) | goaway (c : Nat) | ping (id : Nat) | wu (id n : Nat) | reply (id : Nat) (fin : Bool)
+  | rst (id c : Nat) | goaway (l c : Nat) | ping (id : Nat) | wu (id n : Nat) | reply (id : Nat) (fin : Bool)
   | data (id len : Nat) (fin : Bool) | read (id n : Nat) | other
   deriving Repr, DecidableEq
 
@@ -110,7 +115,7 @@ def parseTok (s : String) : Tok :=
     let args := ((rest.dropEnd 1).toString.splitOn ",").map String.toNat?
     match name, args with
     | "rst", [some a, some b] => .rst a b
-    | "goaway", [some _, some b] => .goaway b
+    | "goaway", [some a, some b] => .goaway a b
     | "ping", [some a] => .ping a
     | "wu", [some a, some b] => .wu a b
     | "reply", [some a, some b] => .reply a (b != 0)
@@ -134,7 +139,7 @@ def mUpd (m : Mon) (id : Nat) (f : MSt → MSt) : Mon :=
 def rstCode (toks : List Tok) (id : Nat) : Option Nat :=
   toks.findSome? fun t => match t with | .rst i c => if i = id then some c else none | _ => none
 def goawayCode (toks : List Tok) : Option Nat :=
-  toks.findSome? fun t => match t with | .goaway c => some c | _ => none
+  toks.findSome? fun t => match t with | .goaway _ c => some c | _ => none
 
 def maxWin : Int := 2147483647
 
@@ -325,6 +330,22 @@ def monEvent (adv : Nat) (m : Mon) (e : Ev) (toks : List Tok) (closed : Bool) : 
     else if goawayCode toks = some 0 then monOut { m with goaway := true } toks
     else .error "graceful-goaway-missing"
 
+/-- GOAWAY's last-good-stream-id: not below a stream the server has answered on, not above the highest id seen -/
+def goawayLastOK (m : Mon) (toks : List Tok) : Bool :=
+  let acted := toks.foldl (fun a t => match t with
+    | .reply i _ => max a i
+    | .data i _ _ => max a i
+    | _ => a) m.acted
+  toks.all fun t => match t with
+    | .goaway l _ => acted ≤ l && l ≤ m.maxSeen
+    | _ => true
+
+def bumpActed (m : Mon) (toks : List Tok) : Mon :=
+  { m with acted := toks.foldl (fun a t => match t with
+      | .reply i _ => max a i
+      | .data i _ _ => max a i
+      | _ => a) m.acted }
+
 def monitor (adv : Nat) : Mon → List Ev → List String → Option String
   | _, [], _ => none
   | _, _, [] => none
@@ -336,19 +357,74 @@ def monitor (adv : Nat) : Mon → List Ev → List String → Option String
     if closed ∧ !isSyn ∧ !m.void then some "connection-killed" else
     match monEvent adv m e (parseGroup g) closed with
     | .error c => some c
-    | .ok m' => if closed ∨ gs.head? == some "stop" then none else monitor adv m' es gs
+    | .ok m' =>
+      if !m'.void ∧ !goawayLastOK m' (parseGroup g) then some "goaway-last-id-wrong"
+      else if closed ∨ gs.head? == some "stop" then none else monitor adv (bumpActed m' (parseGroup g)) es gs
+
+/-! ### bursts: a group of events written back to back, quiescence awaited once -/
+
+/-- schedule A: everything settles between two frames -/
+def seqQ (rev : Bool) : State → List Ev → List Out → Res
+  | s, [], acc => { st := s, out := acc }
+  | s, e :: t, acc =>
+    let r := stepQ rev s e
+    match r.status with
+    | .run => seqQ rev r.st t (acc ++ r.out)
+    | _ => { r with out := acc ++ r.out }
+
+/-- schedule B: the serve loop takes all frames first, handlers and scheduler move afterwards -/
+def seqS (rev : Bool) : State → List Ev → List Out → Bool → Res
+  | s, [], acc, k => let (s', o) := settle rev settleFuel { s with kick := s.kick || k } acc; { st := s', out := o }
+  | s, e :: t, acc, k =>
+    let r := step s e
+    match r.status with
+    | .run => seqS rev r.st t (acc ++ r.out) (k || s.kick)
+    | _ => { r with out := acc ++ r.out }
+
+def runGroups (rev : Bool) : State → List (List Ev) → List (List Out) × Status × Bool
+  | _, [] => ([], .run, false)
+  | s, g :: t =>
+    let a := match g with
+      | [e] => stepQ rev s e
+      | _ => seqQ rev s g []
+    -- (a handler command in the same burst as the SYN_STREAM that starts its handler may or may not find it)
+    let early := g.any fun e => match e with
+      | .hcmd id _ => g.any (fun e' => match e' with | .syn id' .. => id' == id | _ => false)
+      | _ => false
+    let raced := match g with
+      | [_] => false
+      | _ => early || let b := seqS rev s g [] false
+             renderEvent a.out != renderEvent b.out || a.status != b.status || reprStr a.st != reprStr b.st
+    match a.status with
+    | .run => let (o, st, r') := runGroups rev a.st t; (a.out :: o, st, raced || r')
+    | x => ([a.out], x, raced)
+
+def renderGroups (r : List (List Out) × Status × Bool) : String :=
+  let evs := r.1.map renderEvent
+  let tail := match r.2.1 with
+    | .run => []
+    | .closed => ["closed"]
+    | .stop => ["stop"]
+    | .panic => ["PANIC"]
+  " ".intercalate (evs ++ tail)
 
 def showInt (i : Int) : String := toString i
 
 def run (op impl : String) : Ans :=
   match op.splitOn " " with
   | "sv" :: adv :: evs =>
-    match adv.toNat?, evs.mapM parseEv with
-    | some a, some es =>
+    -- "<adv>[:<k>]": the client's bytes arrive in writes of k bytes — the model does not care
+    match ((adv.splitOn ":").headD "").toNat?, evs.mapM (fun g => (g.splitOn "+").mapM parseEv) with
+    | some a, some groups =>
       if a = 0 then { model := "bad-op", verdict := "skip" } else
-      let r := runScript false { adv := a } es
-      let model := renderRun r
-      let raced := renderRun (runScript true { adv := a } es) != model
+      let es := groups.flatMap id
+      let r := runGroups false { adv := a } groups
+      let model := renderGroups r
+      let r2 := runGroups true { adv := a } groups
+      let raced := renderGroups r2 != model || r.2.2 || r2.2.2
+      let hasBurst := groups.any (·.length > 1)
+      -- the monitor judges event by event: up to the first burst
+      let monEvs := (groups.takeWhile (·.length == 1)).flatMap id
       let panicked := (impl.splitOn "PANIC").length > 1
       let hung := (impl.splitOn "HANG").length > 1
       let kinds := es.map fun e => match e with
@@ -362,12 +438,15 @@ def run (op impl : String) : Ans :=
         -- a crash or a hang on individually legal frames is a failure whatever the model predicts
         if panicked then "FAIL:server-panic"
         else if hung then "FAIL:server-hang"
+        else if (impl.splitOn "corruptout(").length > 1 then "FAIL:response-body-corrupted"
+        else if (impl.splitOn "corrupt(").length > 1 then "FAIL:request-body-corrupted"
         else if raced then "skip"
-        else match monitor a {} es (impl.splitOn " ") with
+        else match monitor a {} monEvs (impl.splitOn " ") with
           | some c => "FAIL:" ++ c
           | none => "ok"
       { model, verdict,
         tags := ["sv"] ++ kinds.eraseDups ++ outs.eraseDups ++ (if raced then ["race"] else []) ++
+          (if hasBurst then ["burst"] else []) ++ (if (adv.splitOn ":").length > 1 then ["segwrite"] else []) ++
           (match r.2.1 with | .closed => ["closed"] | .stop => ["stop"] | _ => []) ++
           (if es.length ≥ 2 then ["nt"] else []) }
     | _, _ => { model := "bad-op", verdict := "skip" }
